@@ -1,7 +1,9 @@
 (* Properties/C01.v — Acknowledged object writes are read back exactly (M-META, Model/Meta.v).
    Statements + exact-lemma proofs + Print Assumptions only. *)
 From Verif Require Import Bytes Codec Md5 Meta MetaBasics MetaWitness.
+From Verif Require Import MetaPartsDefs MetaParts MetaPartsOps MetaPartsOwned.
 From Verif Require Import MetaRows1 MetaRows2 MetaRows3 MetaRows4 MetaRows5 MetaRows6 MetaRows7 MetaRows8 MetaRows9 MetaRows10.
+From Verif Require Import MetaRows11 MetaRows12 MetaRows13 MetaRows14.
 
 (* every reachable state satisfies the database's unique indexes: at most one completed is_latest row per
    (bucket,key), version ids unique per key, part sequence numbers unique per object — for ALL histories *)
@@ -177,3 +179,162 @@ Example C01_ex_complete_ack : exists s',
   run ([OMb wb; OVer wb VEnabled; OCmu wb wk; OUp wb wk 2 1 cA; OUp wb wk 2 2 cB] ++ [OCpl wb wk 2 None CRNone]) =
   (s', [ROk; ROk; RUpload 2; REtag (mk_md5 cA); REtag (mk_md5 cB)] ++ [RPut (VId 5) (mk_multi [cA; cB])]).
 Proof. eexists. vm_compute. reflexivity. Qed.
+
+(* ================= BODY level (Proofs/MetaRows11..14, on top of PartsInv / OInv of Proofs/MetaParts*.v) ============ *)
+
+(* HEADLINE — for every history: after an acknowledged PutObject of bytes c to (b,k), followed by ANY operations
+   none of which is addressed to (b,k) (other keys and buckets, reads, bucket operations, copies elsewhere), a
+   GetObject of the key returns exactly c — with the acknowledged version id, the MD5 ETag and the size of c. *)
+Theorem C01_get_returns_last_put : forall ops b k c cr mid s1 rs v e,
+  run (ops ++ [OPut b k c cr]) = (s1, rs ++ [RPut v e]) ->
+  Forall (fun o => match o with
+    | OPut b' k' _ _ | ODel b' k' _ _ | OCmu b' k' | OUp b' k' _ _ _ | OCpl b' k' _ _ _ | OAbt b' k' _
+    | OApp b' k' _ _ => ~ (b' = b /\ k' = k)
+    | OCp _ _ _ db dk => ~ (db = b /\ dk = k)
+    | _ => True
+    end) mid ->
+  exists lm,
+  snd (run ((ops ++ [OPut b k c cr]) ++ mid ++ [OGet b k VRNone])) =
+  snd (run ((ops ++ [OPut b k c cr]) ++ mid)) ++ [RObj v (mk_md5 c) (zlen c) lm None (Some c)].
+Proof. exact run_put_then_get. Qed.
+Print Assumptions C01_get_returns_last_put.
+
+(* … after an acknowledged CopyObject: exactly the bytes (and ETag, size, content type) that GET of the source
+   returned before the copy *)
+Theorem C01_get_returns_last_copy : forall ops sb sk vr db dk mid s1 rs v e,
+  run (ops ++ [OCp sb sk vr db dk]) = (s1, rs ++ [RPut v e]) ->
+  Forall (fun o => match o with
+    | OPut b' k' _ _ | ODel b' k' _ _ | OCmu b' k' | OUp b' k' _ _ _ | OCpl b' k' _ _ _ | OAbt b' k' _
+    | OApp b' k' _ _ => ~ (b' = db /\ k' = dk)
+    | OCp _ _ _ db' dk' => ~ (db' = db /\ dk' = dk)
+    | _ => True
+    end) mid ->
+  exists sv sz slm ct lm body,
+  op_get (fst (run ops)) sb sk (resolve_vref vr) = RObj sv e sz slm ct (Some body) /\
+  snd (run ((ops ++ [OCp sb sk vr db dk]) ++ mid ++ [OGet db dk VRNone])) =
+  snd (run ((ops ++ [OCp sb sk vr db dk]) ++ mid)) ++ [RObj v e sz lm ct (Some body)].
+Proof. exact run_copy_then_get. Qed.
+Print Assumptions C01_get_returns_last_copy.
+
+(* … after an acknowledged AppendObject: the bytes GET of the key returned before the append (nothing, if the key
+   was absent or a delete marker) followed by the appended bytes, with the acknowledged ETag and total size *)
+Theorem C01_get_returns_last_append : forall ops b k c off mid s1 rs e sz,
+  run (ops ++ [OApp b k c off]) = (s1, rs ++ [RAppend e sz]) ->
+  Forall (fun o => match o with
+    | OPut b' k' _ _ | ODel b' k' _ _ | OCmu b' k' | OUp b' k' _ _ _ | OCpl b' k' _ _ _ | OAbt b' k' _
+    | OApp b' k' _ _ => ~ (b' = b /\ k' = k)
+    | OCp _ _ _ db dk => ~ (db = b /\ dk = k)
+    | _ => True
+    end) mid ->
+  exists v lm ct,
+  snd (run ((ops ++ [OApp b k c off]) ++ mid ++ [OGet b k VRNone])) =
+  snd (run ((ops ++ [OApp b k c off]) ++ mid)) ++
+  [RObj v e sz lm ct
+     (Some (match op_get (fst (run ops)) b k None with RObj _ _ _ _ _ (Some p) => p | _ => [] end ++ c))].
+Proof. exact run_append_then_get. Qed.
+Print Assumptions C01_get_returns_last_append.
+
+(* … after an acknowledged CompleteMultipartUpload: the concatenation of the upload's recorded part contents in
+   part-number order, and the ETag is the multipart ETag of exactly those parts *)
+Theorem C01_get_returns_last_complete : forall ops b k u m cr mid s1 rs v e,
+  run (ops ++ [OCpl b k u m cr]) = (s1, rs ++ [RPut v e]) ->
+  Forall (fun o => match o with
+    | OPut b' k' _ _ | ODel b' k' _ _ | OCmu b' k' | OUp b' k' _ _ _ | OCpl b' k' _ _ _ | OAbt b' k' _
+    | OApp b' k' _ _ => ~ (b' = b /\ k' = k)
+    | OCp _ _ _ db dk => ~ (db = b /\ dk = k)
+    | _ => True
+    end) mid ->
+  exists up sz lm ct,
+  find_upload (fst (run ops)) b k u = Some up /\
+  e = mk_multi (map p_content (sort_parts (obj_parts (fst (run ops)) (o_id up)))) /\
+  snd (run ((ops ++ [OCpl b k u m cr]) ++ mid ++ [OGet b k VRNone])) =
+  snd (run ((ops ++ [OCpl b k u m cr]) ++ mid)) ++
+  [RObj v e sz lm ct (Some (concat (map p_content (sort_parts (obj_parts (fst (run ops)) (o_id up))))))].
+Proof. exact run_complete_then_get. Qed.
+Print Assumptions C01_get_returns_last_complete.
+
+(* the step-level statements behind the headline, from ANY state satisfying the invariants (PartsInv: registry
+   exact, referenced parts stored, dedup sound; OInv: part rows owned by existing non-marker rows with old ids) *)
+Print PartsInv.
+Print OInv.
+Theorem C01_put_get_your_write : forall i hist s b k c cr s' v e,
+  PartsInv s -> OInv s -> step i hist s (OPut b k c cr) = (s', RPut v e) ->
+  exists lm,
+  op_get s' b k None = RObj v (mk_md5 c) (zlen c) lm None (Some c) /\
+  op_get s' b k (Some v) = RObj v (mk_md5 c) (zlen c) lm None (Some c).
+Proof. exact put_get_your_write. Qed.
+Print Assumptions C01_put_get_your_write.
+
+Theorem C01_copy_get_your_write : forall i hist s sb sk vr db dk s' v e,
+  PartsInv s -> OInv s -> step i hist s (OCp sb sk vr db dk) = (s', RPut v e) ->
+  exists sv sz slm ct lm body,
+  op_get s sb sk (resolve_vref vr) = RObj sv e sz slm ct (Some body) /\
+  op_get s' db dk None = RObj v e sz lm ct (Some body) /\
+  op_get s' db dk (Some v) = RObj v e sz lm ct (Some body).
+Proof. exact copy_get_your_write. Qed.
+Print Assumptions C01_copy_get_your_write.
+
+Theorem C01_append_get_your_write : forall i hist s b k c off s' e sz,
+  PartsInv s -> OInv s -> step i hist s (OApp b k c off) = (s', RAppend e sz) ->
+  exists v lm ct,
+  op_get s' b k None =
+  RObj v e sz lm ct (Some (match op_get s b k None with RObj _ _ _ _ _ (Some p) => p | _ => [] end ++ c)).
+Proof. exact append_get_your_write. Qed.
+Print Assumptions C01_append_get_your_write.
+
+Theorem C01_complete_get_your_write : forall i hist s b k u m cr s' v e,
+  PartsInv s -> NoDup (map o_id (objs s)) -> (forall x, In x (objs s) -> (o_id x < next_id s)%N) ->
+  step i hist s (OCpl b k u m cr) = (s', RPut v e) ->
+  exists up sz lm ct,
+    find_upload s b k u = Some up /\
+    e = mk_multi (map p_content (sort_parts (obj_parts s (o_id up)))) /\
+    op_get s' b k None = RObj v e sz lm ct (Some (concat (map p_content (sort_parts (obj_parts s (o_id up)))))) /\
+    op_get s' b k (Some v) = RObj v e sz lm ct (Some (concat (map p_content (sort_parts (obj_parts s (o_id up)))))).
+Proof. exact complete_get_your_write. Qed.
+Print Assumptions C01_complete_get_your_write.
+
+(* a GET (by key or by version id) that succeeded keeps returning the same answer, bytes included, through any
+   continuation not addressed to that key *)
+Theorem C01_get_stable_history : forall ops mid b k v,
+  Forall (fun o => match o with
+    | OPut b' k' _ _ | ODel b' k' _ _ | OCmu b' k' | OUp b' k' _ _ _ | OCpl b' k' _ _ _ | OAbt b' k' _
+    | OApp b' k' _ _ => ~ (b' = b /\ k' = k)
+    | OCp _ _ _ db dk => ~ (db = b /\ dk = k)
+    | _ => True
+    end) mid ->
+  forall v' e sz lm ct bd,
+  op_get (fst (run ops)) b k v = RObj v' e sz lm ct bd ->
+  op_get (fst (run (ops ++ mid))) b k v = RObj v' e sz lm ct bd.
+Proof. exact run_gets_stable. Qed.
+Print Assumptions C01_get_stable_history.
+
+(* NoSuchBucket / NoSuchKey EXACTLY when the bucket / the current version of the key is absent (any state) *)
+Theorem C01_get_nosuchbucket_iff : forall s b k v,
+  op_get s b k v = RErr NoSuchBucket <-> forall x, In x (buckets s) -> b_name x <> b.
+Proof. exact get_nosuchbucket_iff. Qed.
+Print Assumptions C01_get_nosuchbucket_iff.
+Theorem C01_get_nosuchkey_iff : forall s b k,
+  op_get s b k None = RErr NoSuchKey <->
+  (exists x, In x (buckets s) /\ b_name x = b) /\
+  forall r, In r (objs s) -> ~ (on_key b k r = true /\ completed r = true /\ o_latest r = true).
+Proof. exact get_nosuchkey_iff. Qed.
+Print Assumptions C01_get_nosuchkey_iff.
+Theorem C01_head_nosuchbucket_iff : forall s b k v,
+  op_head s b k v = RErr NoSuchBucket <-> forall x, In x (buckets s) -> b_name x <> b.
+Proof. exact head_nosuchbucket_iff. Qed.
+Print Assumptions C01_head_nosuchbucket_iff.
+Theorem C01_head_nosuchkey_iff : forall s b k,
+  op_head s b k None = RErr NoSuchKey <->
+  (exists x, In x (buckets s) /\ b_name x = b) /\
+  forall r, In r (objs s) -> ~ (on_key b k r = true /\ completed r = true /\ o_latest r = true).
+Proof. exact head_nosuchkey_iff. Qed.
+Print Assumptions C01_head_nosuchkey_iff.
+
+(* the headline on a concrete history: put, traffic on other keys and buckets, get *)
+Example C01_ex_headline :
+  snd (run (([OMb wb; OVer wb VEnabled] ++ [OPut wb wk cA CRNone]) ++
+            [OPut wb B"k2" cB CRNone; OMb B"other"; OCp wb wk VRNone B"other" wk; ODel wb B"k2" VRNone CRNone;
+             OVer wb VSuspended] ++ [OGet wb wk VRNone])) =
+  [ROk; ROk; RPut (VId 2) (mk_md5 cA); RPut (VId 3) (mk_md5 cB); ROk; RPut VNull (mk_md5 cA);
+   RDel (Some (VId 6)) true; ROk; RObj (VId 2) (mk_md5 cA) 8 2000 None (Some cA)].
+Proof. vm_compute. reflexivity. Qed.
